@@ -1,6 +1,7 @@
 from plans.common import *
 
 H = "harness/c01_tasks.cpp"
+L1 = "harness/c01_mailbox_l1.cpp"
 PLAN = dict(
     level="exploration",
     rule="case = generated task-tree program (1-3 external threads, <=24 units: task_group run/defer/run_and_wait/wait/cancel, nested groups, "
@@ -13,11 +14,13 @@ PLAN = dict(
     tiers=dict(
         quick=[det("rel", H, "cs-rel", 16, 40, 4, tso=True, time_cap=30),
                det("dbg", H, "cs-dbg", 16, 12, 4, tso=True, time_cap=25, args=["--no-soft0"]),
+               det("l1-mailbox", L1, "cs-rel", 4, 250, 6, tso=True, time_cap=20, optional=True, case_prefix="mbox "),
                tsan("C01", 4, 80)],
         thorough=[det("rel", H, "cs-rel", 16, 1200, 5, tso=True, time_cap=300),
                   det("dbg", H, "cs-dbg", 16, 300, 5, tso=True, time_cap=200, args=["--no-soft0"]),
                   det("enum-wake", H, "cs-rel", 16, 40, 2, tso=True, time_cap=120, enum="wake", enum_cap=150),
                   det("enum-sbload", H, "cs-rel", 16, 40, 2, tso=True, time_cap=120, enum="sbload", enum_cap=150),
+               det("l1-mailbox", L1, "cs-rel", 16, 3000, 8, tso=True, time_cap=120, optional=True, case_prefix="mbox "),
                tsan("C01", 16, 600)],
     ),
 )
